@@ -142,6 +142,16 @@ Checks that were strengthened because a seeded change (or the triage of one) sho
   (pairs of a chunked body tagged as query-string parameters) - every third end-to-end run of `en_c15` uses the chunked coding;
   **C16-9** (tunnel payload starting with NUL or LF never switches to tunnel mode) - payloads of length-prefixed and banner
   protocols besides TLS.
+* **Round 10** (19 more; 6 not caught at first): **C19-10** (a Digest user name with quoted-pairs marks unwritten bytes of its
+  buffer as valid: what another connection left on the heap shows up in the transaction) - credentials in C19's inputs now
+  differ from connection to connection and include Digest user names with backslashes; **C02-10** (response cursor derived from
+  `tx->index` after `htp_connp_tx_freed` has shifted the list) - C02 also runs with the application destroying finished
+  transactions between calls; **C10-10** (hard limit skipped while the data is below the soft limit) - limit pairs with the
+  soft limit above or equal to the hard one; **C11-10** (framing indicators suppressed for CONNECT) - the framing triggers are
+  also sent with CONNECT; **C15-10** (no urlencoded parser for PUT) - the end-to-end runs of `en_c15` rotate POST, PUT, PATCH
+  and DELETE; **C04-10** (a stale index clears another transaction's list slot) made the library crash on C04's own histories,
+  and the check stopped as *inconclusive* (too few cases judged) because crashes were booked to C01 only - a crash on a case of
+  a check's own workload is now also a violation of that check's property (nothing was reported for that case at all).
 * **C08-1/2, C19-1/2** were the acceptance tests of the two checks built last; C19-1 (a process-wide decompression buffer) is
   invisible to ThreadSanitizer because zlib does the writes, and is caught by the solo-vs-shared dump comparison under baton
   interleavings; C19-2 (self-organising best-fit map) is caught by the deep configuration hash and by TSan.
